@@ -1837,7 +1837,12 @@ impl StorageEngine {
                         Some(current_bytes) => {
                             let current_str = String::from_utf8_lossy(current_bytes);
                             match current_str.parse::<i64>() {
-                                Ok(current) => current + increment,
+                                Ok(current) => match current.checked_add(increment) {
+                                    Some(sum) => sum,
+                                    None => return Err(FerrousError::Command(CommandError::Generic(
+                                        "increment or decrement would overflow".to_string()
+                                    ))),
+                                },
                                 Err(_) => return Err(FerrousError::Command(CommandError::NotInteger)),
                             }
                         }
